@@ -211,8 +211,9 @@ func RunCheck(id, tier string, workers int, seed int64, race bool) *Report {
 
 func runWorker(id, tier string, i int, name string) *JobResult {
 	cmd := exec.Command(os.Args[0], "job", id, tier, strconv.Itoa(i))
-	cmd.Env = append(os.Environ(), "GOMAXPROCS=2", "GORACE=halt_on_error=0 exitcode=0 history_size=2")
-	cmd.Stderr = nil
+	logDir, _ := os.MkdirTemp("", "verif-race-")
+	defer os.RemoveAll(logDir)
+	cmd.Env = append(os.Environ(), "GOMAXPROCS=2", "GORACE=halt_on_error=0 exitcode=0 log_path="+logDir+"/race", "VERIF_RACE_LOG="+logDir+"/race")
 	var stderr limitedBuf
 	cmd.Stderr = &stderr
 	out, err := cmd.Output()
